@@ -107,6 +107,18 @@ def build_plain(scr, kind):
         if p.returncode != 0 or not os.path.exists(exe):
             raise BuildError("the eav tool does not build:\n" + p.stdout.decode(errors="replace")[-3000:])
         return exe
+    elif kind == "gcov":
+        # one object per source so that the .gcno/.gcda files sit next to each other in d/cov
+        cov = os.path.join(d, "cov")
+        os.makedirs(cov, exist_ok=True)
+        objs = []
+        for sfile in srcs + [os.path.join(VERIF, "harness/drive.c")]:
+            o = os.path.join(cov, os.path.basename(os.path.dirname(sfile)) + "_" + os.path.basename(sfile)[:-2] + ".o")
+            p = subprocess.run(["gcc", "-O0", "-g", "--coverage"] + base + ["-c", sfile, "-o", o], stdout=subprocess.PIPE, stderr=subprocess.STDOUT)
+            if p.returncode != 0:
+                raise BuildError("gcov build fails:\n" + p.stdout.decode(errors="replace")[-3000:])
+            objs.append(o)
+        cmd = ["gcc", "--coverage"] + objs + ["-lidn2", "-Wl,--wrap=idn2_to_ascii_8z"]
     exe = os.path.join(d, kind + ".exe")
     p = subprocess.run(cmd + ["-o", exe], stdout=subprocess.PIPE, stderr=subprocess.STDOUT)
     if p.returncode != 0:
@@ -220,6 +232,58 @@ def print_axioms(theorems):
         else:
             res[name] = None
     return res, out
+
+
+def gcov_report(exe):
+    """branch/line coverage of the library sources after runs of the gcov build: {file: {...}}, totals"""
+    cov = os.path.join(os.path.dirname(exe), "cov")
+    gcnos = sorted(x for x in os.listdir(cov) if x.endswith(".gcno") and not x.startswith("harness_"))
+    p = subprocess.run(["gcov", "-b", "-c"] + gcnos, cwd=cov, stdout=subprocess.PIPE, stderr=subprocess.STDOUT)
+    out = p.stdout.decode(errors="replace")
+    files = {}
+    for m in re.finditer(r"File '([^']+)'\n((?:[^\n]+\n)+)", out):
+        fn, body = m.group(1), m.group(2)
+        if "/usr/" in fn or fn.endswith(".h") and "/include/eav/" not in fn:
+            continue
+        rec = {}
+        for key, rx in (("lines", r"Lines executed:([\d.]+)% of (\d+)"), ("branches_executed", r"Branches executed:([\d.]+)% of (\d+)"),
+                        ("branches_taken", r"Taken at least once:([\d.]+)% of (\d+)")):
+            mm = re.search(rx, body)
+            if mm:
+                rec[key] = [float(mm.group(1)), int(mm.group(2))]
+        files[os.path.relpath(fn, os.path.dirname(os.path.dirname(exe))) if os.path.isabs(fn) else fn] = rec
+    missed, untaken = {}, {}
+    for g in sorted(os.listdir(cov)):
+        if g.endswith(".gcov"):
+            src = None
+            lines, br = [], []
+            cur = None
+            for line in open(os.path.join(cov, g), errors="replace"):
+                if src is None:
+                    mm = re.match(r"\s+-:\s+0:Source:(.*)", line)
+                    if mm:
+                        src = mm.group(1)
+                mm = re.match(r"\s*(#####|-|\d+\*?):\s*(\d+):(.*)", line)
+                if mm:
+                    cur = "%s: %s" % (mm.group(2), mm.group(3).strip()[:80])
+                    if mm.group(1) == "#####":
+                        lines.append(cur)
+                    continue
+                mm = re.match(r"branch\s+(\d+) (never executed|taken 0)\b", line)
+                if mm and cur and (not br or br[-1] != cur):
+                    br.append(cur)
+            key = (os.path.basename(os.path.dirname(src)) + "/" + os.path.basename(src)) if src else None
+            if src and "/usr/" not in src and "harness" not in src:
+                if lines:
+                    missed[key] = lines[:40]
+                if br:
+                    untaken[key] = br[:60]
+    tot = lambda k: (sum(v[k][0] * v[k][1] / 100.0 for v in files.values() if k in v), sum(v[k][1] for v in files.values() if k in v))
+    totals = {}
+    for k in ("lines", "branches_executed", "branches_taken"):
+        a, b = tot(k)
+        totals[k] = dict(covered=int(round(a)), total=b, percent=round(100.0 * a / b, 2) if b else None)
+    return dict(files=files, totals=totals, unexecuted_lines=missed, lines_with_an_untaken_branch=untaken)
 
 
 # ----------------------------------------------------------------------------- running ops
